@@ -328,6 +328,19 @@ pub fn gen_cases(profile: &str, seed: u64, b: &Budget) -> Vec<Case> {
                     bs = [64, 128, 192, 256, 512, 576, 1024, 320][(idx / 2) % 8];
                     cfg.block_size = bs;
                     mode = Mode::St;
+                    if idx % 3 == 0 {
+                        // non-stationary residuals under a small configured maximum parameter
+                        let b = (idx / 3) % 5;
+                        family = format!("nonstat{b}");
+                        cfg.max_parameter = [b, b + 1, b.saturating_sub(1), b][(idx / 15) % 4];
+                        cfg.use_lpc = idx % 2 == 0;
+                        cfg.use_constant = true;
+                        cfg.use_fixed = true;
+                        cfg.fixed_max_order = 4;
+                        bs = [256, 512, 1024, 384, 2048][(idx / 6) % 5];
+                        cfg.block_size = bs;
+                        bps = [16, 8, 12, 16][(idx / 9) % 4];
+                    }
                 }
             }
             "c04" => {
